@@ -45,6 +45,25 @@ def select_points(ctx, un, pts):
     return sorted(k for k in ks if 0 <= k < n)
 
 
+def allowed_states(un, op):
+    """home creation with predefined collections = several atomic units: home, then each collection"""
+    if not op.get("predefined"):
+        return []
+    home = op["coll"]
+    out = []
+    names = list(B.PREDEF)
+    for mask in range(1 << len(names)):
+        st = dict(un["pre_abs"])
+        st[home] = None
+        for i, n in enumerate(names):
+            if mask >> i & 1:
+                for k, v in un["post_abs"].items():
+                    if k == home + "/" + n or k.startswith(home + "/" + n + "/"):
+                        st[k] = v
+        out.append(st)
+    return out
+
+
 def run(ctx):
     ctx.rule = ("case = (request kind, store shape, cache layout, boundary k, crash | errno): the real server is killed before "
                 "/ gets an error from the k-th mutating system call of the request; distinct by that tuple; non-trivial = the "
@@ -85,6 +104,7 @@ def _run(ctx, base):
             if un.get("error") or rec["problems"]:
                 continue
             ctx.traces_validated += 1
+            allowed = allowed_states(un, B.all_ops()[o])
             pts = B.injection_points(un, every_syscall=not ctx.quick)
             sel = select_points(ctx, un, pts)
             for rank, i in enumerate(sel):
@@ -98,7 +118,7 @@ def _run(ctx, base):
                     tag = "%s-%d%d-%s-%d-%s%s" % (sh, lay[0], lay[1], o, i, mode, err or "")
                     jobs.append(dict(base=base, shape=sh, lay=lay, opname=o, tag=tag, inject=(mode, err, name, ordinal),
                                      pre_abs=un["pre_abs"], post_abs=un["post_abs"], list_before=un["list_before"],
-                                     list_after=un["list_after"]))
+                                     list_after=un["list_after"], allowed=allowed, names=un["names"], contents=un["contents"]))
                     stkind = un["steps"][k][0][0]
                     # TemporaryDirectory clean-up retries after a PermissionError: the real request goes on as if unfaulted
                     oracle = None if (mode == "fault" and err == "EACCES" and stkind == "Rmtree") else (
@@ -112,7 +132,7 @@ def _run(ctx, base):
                         tag = "%s-%d%d-%s-lock-%s" % (sh, lay[0], lay[1], o, mode)
                         jobs.append(dict(base=base, shape=sh, lay=lay, opname=o, tag=tag, inject=(mode, err, name, ordinal),
                                          pre_abs=un["pre_abs"], post_abs=un["post_abs"], list_before=un["list_before"],
-                                         list_after=un["list_after"]))
+                                         list_after=un["list_after"], allowed=allowed, names=un["names"], contents=un["contents"]))
                         mjobs.append(None)
                         meta.append(dict(case=(o, sh, tuple(lay)), k=-1, label="open of the storage lock file", mode=mode, err=err, un=un))
         ctx.log("injection: %d runs" % len(jobs))
@@ -153,14 +173,14 @@ def _run(ctx, base):
             mism.append("model does not evaluate: %s" % model[1][-300:])
             continue
         mev, code, ment = model
-        mpre, mpost = X.abs_of_entries(un["pre_entries"]), X.abs_of_entries(un["post_entries"])
         ma = X.abs_of_entries(ment)
-        mcls = "same" if mpre == mpost else ("before" if ma == mpre else ("after" if ma == mpost else "neither"))
-        if mcls != res["cls"]:
-            mism.append("%s, %s before [%s]: real store is %s, model predicts %s" % (
-                mt["case"], mt["err"] or "kill", mt["label"], res["cls"], mcls))
-        elif res["status"] in B.SUCCESS and code != 0 and not (mt["err"] == "EACCES"):
-            # a success answer where the model raises: only tolerated for the PermissionError suppressions of the cache
+        ra = dict(res["abs_model"])
+        if ma != ra:
+            d = sorted(set(ma.items()) ^ set(ra.items()))[:3]
+            mism.append("%s, %s before [%s]: the surviving visible store (%s) differs from the model's prediction at %s" % (
+                mt["case"], mt["err"] or "kill", mt["label"], res["cls"], [(X.fmt_step(("x", q))[2:], v) for q, v in d]))
+        elif res["status"] in B.SUCCESS and code != 0 and mt["err"] != "EACCES":
+            # a success answer where the model raises: only tolerated for the PermissionError suppressions / retries
             mism.append("%s, %s before [%s]: answered %s but the model ends with outcome %d" % (
                 mt["case"], mt["err"] or "kill", mt["label"], res["status"], code))
     ctx.extra["injection_runs"] = len(jobs)
@@ -185,7 +205,8 @@ def replay(ctx, path):
         un = B.unfaulted(base, r["shape"], tuple(r["layout"]), op[0])
         res = B.inject_run(dict(base=base, shape=r["shape"], lay=tuple(r["layout"]), opname=op[0], tag="replay",
                                 inject=tuple(r["inject"]), pre_abs=un["pre_abs"], post_abs=un["post_abs"],
-                                list_before=un["list_before"], list_after=un["list_after"]))
+                                list_before=un["list_before"], list_after=un["list_after"], names=un["names"],
+                                contents=un["contents"], allowed=allowed_states(un, B.all_ops()[op[0]])))
         print("outcome:", res["cls"], "status:", res["status"], "hit:", res["hit"], "problems:", res["problems"])
         return 1 if res["problems"] else 0
     finally:
